@@ -225,6 +225,13 @@ class MaybeEncodingError(Exception):
         except Exception:
             return '<unrepresentable %s object>' % type(obj).__name__
 
+    def __reduce__(self):
+        # args already holds the two reprs: restore them as they are
+        # instead of running __init__ (and repr()) on them once more
+        # for every pickle round trip.
+        return (self.__class__.__new__,
+                (self.__class__,) + self.args, self.__dict__)
+
     def __repr__(self):
         return "<%s: %s>" % (self.__class__.__name__, str(self))
 
